@@ -24,6 +24,26 @@ POOL = [0, 1, -1, 2, -2, MAXI, MINI, MAXI - 1, MINI + 1, 1 << 62, -(1 << 62)]
 T1 = ["a", "b", "ab", "_", "c"]
 T2 = ["b", "c", "bc", "_"]
 T3 = ["c", "d", "_"]
+T3INT = [0, 1, -1, 2, MAXI, MINI, MAXI - 1, MINI + 1, 255, 256, -256, 1 << 32, -(1 << 32), 72057594037927936]
+LONG_LENS = [52, 56, 57, 59, 60, 61, 63, 64, 65, 70, 120, 200]   # around the 64-byte key / 8+64-byte de-dup buffers and far beyond
+LONG_ALPHA = "abcdefghijklmnopqrstuvwxyz0123456789:-@"
+
+
+def long_family(rng, length=None):
+    """2-4 strings of one (long) length that share long common parts: they differ only near the end, only in the
+    middle, or only in the first byte — what a truncated or mis-sliced key buffer confuses."""
+    n = length or rng.choice(LONG_LENS)
+    base = [rng.choice(LONG_ALPHA) for _ in range(n)]
+    where = rng.choice(["end", "end", "end", "middle", "first", "after60", "after64"])
+    pos = {"end": n - 1, "middle": n // 2, "first": 0, "after60": min(n - 1, 60), "after64": min(n - 1, 64)}[where]
+    if where == "end" and rng.random() < 0.5 and n > 8:
+        pos = n - rng.randint(1, 4)
+    out = []
+    for c in rng.sample("ABCDEFGH", rng.choice([2, 2, 3, 4])):
+        v = list(base)
+        v[pos] = c
+        out.append("".join(v))
+    return out
 
 # findings this check classifies as known when (and only when) the narrow class predicate holds; the lines themselves live
 # in KNOWN_FINDINGS.txt (proposed text in checks/C10.design.md). VERIF_C10_ASSUME_KNOWN=1 lets a builder run the check as
@@ -356,6 +376,36 @@ def rand_scenario(rng):
         tags = (rng.choice(T1), rng.choice(T2), rng.choice(T3))
         rows.append([rng.randrange(nshards), tags, rand_val(rng, positive)])
     shards = list(range(nshards))
+    flavour = rng.random()
+    if flavour < 0.2 and rows:
+        # long group keys: several groups on one shard whose keys share everything but a few bytes; the fixed-size key
+        # and de-dup buffers of the map -> frame -> dedup -> reduce path are exercised past their size
+        pools = [T1, T2, T3]
+        which = rng.sample([0, 1, 2], rng.choice([1, 1, 2, 3]))
+        for i in which:
+            fam = long_family(rng)
+            if rng.random() < 0.3:
+                fam = fam + [rng.choice(pools[i])]
+            pools[i] = fam
+        if rng.random() < 0.4:   # a first component that ends right at the buffer boundary, the difference in the next one
+            pools[0] = [long_family(rng, rng.choice([52, 56, 57, 59, 60, 61]))[0]]
+            if len(pools[1]) > 4 or pools[1] is T2:
+                pools[1] = long_family(rng, rng.choice([4, 8, 30, 70]))
+            which = sorted(set(which) | {0, 1})
+        nshards = rng.choice([1, 1, 2])
+        shards = list(range(nshards))
+        for r in rows:
+            r[0] = rng.randrange(nshards)
+            r[1] = tuple(rng.choice(pools[i]) for i in range(3))
+        mask = "".join("1" if (i in which or rng.random() < 0.3) else "0" for i in range(3))
+        stream = rng.choice([0.1, 0.1, 0.1, 0.9])     # mostly one shard per node with replicas: inside the proved class
+    elif flavour < 0.32 and rows:
+        # t3 is an int64 tag (the drivers declare it TAG_TYPE_INT when every t3 is a decimal integer), extremes included
+        pool = rng.sample(T3INT, rng.choice([1, 2, 3, 4])) + ([rng.randrange(MINI, MAXI + 1)] if rng.random() < 0.3 else [])
+        for r in rows:
+            r[1] = (r[1][0], r[1][1], str(rng.choice(pool)))
+        if rng.random() < 0.7:
+            mask = mask[:2] + "1"
     if stream < 0.25:
         # A1: every node holds one shard; 1-3 replicas per shard, arbitrary arrival order, some nodes without data
         if mask == "000":
